@@ -1,0 +1,11 @@
+// SPDX-License-Identifier: MIT
+
+//go:build verif
+
+package mux
+
+// VerifDump 输出路由树的内部状态，仅用于验证。
+func VerifDump[T any](r *Router[T]) []string { return r.tree.VerifDump() }
+
+// VerifDumpHosts 输出 [Hosts] 中域名树的内部状态，仅用于验证。
+func VerifDumpHosts(hs *Hosts) []string { return hs.tree.VerifDump() }
